@@ -45,6 +45,8 @@ class Bag2(Generic[T]):
 @serializer
 def bag2_items(b: Bag2[T]) -> List[T]: return b.items
 
+def int_to_item(i: int) -> Item: return Item(i)
+
 CONVS = {"str": item_to_str, "int": item_to_int, "other": item_to_other, "ints": item_to_ints, "optstr": item_to_optstr}
 '''
 
@@ -175,4 +177,38 @@ def run_method_schema(rnd, seed, budget, hist, distinct, build_module):
             if why:
                 failures.append({"kind": "P", "part": "converted", "features": ["serialized-method"], "py": cname, "conversion": None, "mode": "serialized-method",
                                  "class_src": lines, "value": f"{cname}({x})", "so": {"exclude_none": en}, "serialized": out, "real": sch, "why": why, "k_ok": None})
+    return failures, n
+
+
+
+def run_conv_roundtrip(rnd, seed, budget, hist, distinct, build_module):
+    """C05 on converted positions: with a two-way conversion Item <-> int (dynamic, or at field level) in force, deserialize(serialize(v)) == v through every
+    collection type - the ones that have a default conversion of their own (deque, user collection classes) included"""
+    import dataclasses
+    from apischema import serialize, deserialize
+    from apischema.metadata import conversion as conv_md
+    mod = build_module(SRC, f"c05conv_{seed}"); ns = dict(vars(mod))
+    Item, Bag2 = ns["Item"], ns["Bag2"]
+    to_int, from_int = ns["item_to_int"], ns["int_to_item"]
+    failures, n = [], 0
+    usable = [c for c in CONTAINERS if c[1] is not None and "Undefined" not in c[0] and "Opaque" not in c[0]]
+    for _ in range(60 * budget):
+        tpy, build = rnd.choice(usable); tp = eval(tpy, ns)
+        k = iter(range(1, 50))
+        v = build(lambda: Item(next(k)), rnd)
+        mode = rnd.choice(["dynamic", "field"])
+        n += 1; hist["converted-roundtrip:" + mode] += 1; distinct.add(case_hash("convrt", tpy, mode, repr(v)))
+        why, out = [], None
+        try:
+            if mode == "field":
+                H = dataclasses.make_dataclass("H", [("x", tp, dataclasses.field(metadata=conv_md(from_int, to_int)))])
+                out = serialize(H, H(v)); back = deserialize(H, out)
+                if back != H(v): why.append("deserialize(serialize(v))-differs-from-v")
+            else:
+                out = serialize(tp, v, conversion=to_int); back = deserialize(tp, out, conversion=from_int)
+                if back != v and not (isinstance(v, tuple) and tuple(back) == v): why.append("deserialize(serialize(v))-differs-from-v")
+        except Exception as e: why.append("round-trip-raises:" + type(e).__name__ + ":" + str(e)[:80])
+        if why:
+            failures.append({"kind": "P", "part": "ordered", "features": ["converted-roundtrip", mode], "class_src": [f"{tpy} with Item <-> int ({mode} conversion)"], "value": repr(v)[:300],
+                             "serialized": repr(out)[:300], "why": why, "k_ok": None})
     return failures, n
